@@ -56,6 +56,42 @@ def run_harness(binary, args, timeout=3600, env=None):
     return p.returncode, p.stdout + p.stderr
 
 
+def sanitize_shards(d):
+    """After an abort of the harness the last shard may end in a partial line: drop it."""
+    for sh in glob.glob(os.path.join(d, "shard_*.ndjson")):
+        with open(sh) as f:
+            lines = f.read().split("\n")
+        good = []
+        for ln in lines:
+            if not ln.strip():
+                continue
+            try:
+                json.loads(ln)
+                good.append(ln)
+            except Exception:
+                break
+        with open(sh, "w") as f:
+            f.write("".join(x + "\n" for x in good))
+
+
+def harness_outcome(run, rc, txt, out, engine="i2s"):
+    """Common handling of the harness exit status.  Returns False if nothing can be validated."""
+    if rc == 0:
+        return True
+    sanitize_shards(out)
+    wal = os.path.join(out, "wal.json")
+    if os.path.exists(wal):
+        try:
+            w = json.load(open(wal))
+        except Exception:
+            w = {"unreadable_wal": True}
+        run.violation("crash:" + json.dumps(w, sort_keys=True), {"engine": engine, "crash": w, "output": txt[-2000:]},
+                      "the library aborted the process (non-unwinding panic / signal) on this input")
+        return True
+    run.tool_error("harness failed:\n" + txt[-3000:])
+    return False
+
+
 # ---------------------------------------------------------------------------------------------
 # TLC
 # ---------------------------------------------------------------------------------------------
